@@ -115,10 +115,20 @@ def dead_kinds(path):
     return [km.group(1)] + (["BrokenPipe"] if km.group(1) != "BrokenPipe" else [])
 
 
+def refusal_kind(path):
+    """Kind of the error `register` refuses a call with once the connection is marked failed; None if
+    the client has no such refusal (its dead-connection error is the failed write)."""
+    ks = dead_kinds(path)
+    src = test_mod_cut(strip(read(path)))
+    return ks[0] if re.search(r"\bfailed\b", src) else None
+
+
 def extract():
     facts = {}
     facts["deadKinds"] = dead_kinds("src/client.rs")
     facts["asyncDeadKinds"] = dead_kinds("src/async_client.rs")
+    facts["refusalKind"] = refusal_kind("src/client.rs")
+    facts["asyncRefusalKind"] = refusal_kind("src/async_client.rs")
     for key, path in (("", "src/fleet.rs"), ("async", "src/async_fleet.rs")):
         raw = read(path)
         src = test_mod_cut(strip(raw))
@@ -162,6 +172,8 @@ def render(f):
          f"def asyncFanOutOverTargets : Bool := {b(f['asyncFanOutOverTargets'])}",
          f"def deadKinds : List IoKind := {kinds(f['deadKinds'])}",
          f"def asyncDeadKinds : List IoKind := {kinds(f['asyncDeadKinds'])}",
+         "def refusalKind : Option IoKind := " + ("none" if f['refusalKind'] is None else f"some .{KINDS[f['refusalKind']]}"),
+         "def asyncRefusalKind : Option IoKind := " + ("none" if f['asyncRefusalKind'] is None else f"some .{KINDS[f['asyncRefusalKind']]}"),
          "def policy : Policy := ⟨retryableKinds, serverRetry, otherRetry, deadKinds.headD .brokenPipe⟩",
          "def asyncPolicy : Policy := ⟨asyncRetryableKinds, asyncServerRetry, asyncOtherRetry, asyncDeadKinds.headD .brokenPipe⟩",
          "end Repe.Gen.Fleet"]
